@@ -110,6 +110,31 @@ pub fn run_case(tape: &mut Tape, _tier: Tier, _p: &CaseParams) -> CaseOutcome {
   cfg.mixed_attrs = false;
   let mut world = crate::checks::worlds::gen_any_world(tape, &cfg);
   crate::checks::worlds::strip_lockfile(&mut world);
+  if tape.draw(Stream::World, 6) == 5 {
+    // a root that reaches its module through explicit redirects: the root
+    // defaults (unknown media type taken as JavaScript, attribute-less JSON
+    // accepted) belong to the target
+    let lang = *tape.pick(
+      Stream::World,
+      &[Lang::Unknown, Lang::Json, Lang::Ts, Lang::Js, Lang::Unknown],
+    );
+    let t = format!("{}rr_target{}", H_A, lang.ext());
+    let mut d = ModuleDesc::new(t.clone(), lang);
+    if lang.is_script() {
+      if let Some(r0) = world.roots.first().filter(|r| r.starts_with("http")) {
+        d.items.push(Item::new(Form::SideEffect, r0.clone()));
+      }
+    }
+    world.add_desc(d);
+    let hops = tape.range(Stream::World, 1, 3);
+    let mut to = t;
+    for h in 0..hops {
+      let u = format!("{}rr_hop{}", H_A, h);
+      world.remote.insert(u.clone(), Entry::Redirect(to));
+      to = u;
+    }
+    world.roots.push(to);
+  }
   let mut sem = SemOpts::draw(tape);
   sem.with_locker = false;
   sem.max_redirects = 10;
@@ -407,6 +432,138 @@ pub fn run_case(tape: &mut Tape, _tier: Tier, _p: &CaseParams) -> CaseOutcome {
           "redirect-not-recorded",
           format!("{} was redirected to {} but the graph has no redirect for it", l.id.label(), to),
           ctx(json!({"request": l.id.label()})),
+        );
+        return out;
+      }
+    }
+  }
+  // (C) entry kinds: what the world serves as a module is a module entry
+  {
+    // final target -> some reference carries an attribute / source phase
+    let mut referenced: BTreeMap<String, bool> = BTreeMap::new();
+    let mut note = |from: &str, text: &str, special: bool| {
+      let r = resolve_text(&world, from, text);
+      let t = final_target(&world, &r);
+      let e = referenced.entry(t).or_insert(false);
+      *e |= special;
+      let e = referenced.entry(r).or_insert(false);
+      *e |= special;
+    };
+    for d in world.descs.values() {
+      for it in &d.items {
+        let special = it.attr.is_some() || it.form.is_source_phase();
+        note(&d.url, &it.spec, special);
+        if let Some((_, t)) = &it.types_pragma {
+          note(&d.url, t, special);
+        }
+      }
+      for t in d
+        .self_types
+        .iter()
+        .chain(d.source_map.iter())
+        .chain(d.x_typescript_types.iter())
+      {
+        note(&d.url, t, false);
+      }
+      for j in d.jsx_import_source.iter().chain(d.jsx_import_source_types.iter()) {
+        note(&d.url, &format!("{}/jsx-runtime", j), false);
+      }
+    }
+    if let Some(r) = &world.resolver {
+      for v in r
+        .map
+        .values()
+        .chain(r.types_map.values())
+        .chain(r.resolve_types.values())
+      {
+        note("file:///w/", v, false);
+      }
+    }
+    for (from, ts) in &world.imports {
+      for t in ts {
+        note(from, t, false);
+      }
+    }
+    let entry_is_module = |u: &str| {
+      matches!(world.remote.get(u), Some(Entry::Module { final_url: None, .. }))
+        && !world.cache.contains_key(u)
+    };
+    // C1: a root's target that nothing imports gets the root defaults, also
+    // when the root reaches it through explicit redirects
+    for r in &world.roots {
+      let mut hops = 0;
+      let mut cur = r.clone();
+      let mut clean = !world.cache.contains_key(&cur);
+      while let Some(Entry::Redirect(to)) = world.remote.get(&cur) {
+        hops += 1;
+        cur = to.clone();
+        clean &= !world.cache.contains_key(&cur);
+        if hops > 8 {
+          break;
+        }
+      }
+      if hops > 8 || !clean || !entry_is_module(&cur) || cur.starts_with(REGISTRY) {
+        continue;
+      }
+      let Some(d) = world.descs.get(&cur) else { continue };
+      if referenced.contains_key(&cur) || d.unparsable {
+        continue;
+      }
+      if !(d.lang.is_script() || matches!(d.lang, Lang::Unknown | Lang::Json)) {
+        continue;
+      }
+      out.count(
+        if hops > 0 { "probe.redirected_root_target" } else { "probe.plain_root_target" },
+        1,
+      );
+      let ok = match shape.slots.get(&cur) {
+        Some(SlotShape::Module(_)) => true,
+        // an unknown media type taken as JavaScript may well not parse
+        Some(SlotShape::Err { variant, .. }) => {
+          d.lang == Lang::Unknown && variant == "Parse"
+        }
+        None => false,
+      };
+      if !ok {
+        out.violation(
+          "C01",
+          "nothing-reachable-is-absent",
+          format!(
+            "root-target-not-a-module:{:?}:{}",
+            d.lang,
+            if hops > 0 { "redirected" } else { "direct" }
+          ),
+          format!(
+            "root {} leads (over {} redirects) to {} which the world serves as a {:?} module imported by nothing else; its entry is {:?}",
+            r, hops, cur, d.lang, shape.slots.get(&cur)
+          ),
+          ctx(json!({"root": r, "target": cur})),
+        );
+        return out;
+      }
+    }
+    // C2: a script module that every importer imports plainly is never an
+    // error entry (unless it does not parse)
+    for (k, slot) in &shape.slots {
+      let Some(d) = world.descs.get(k) else { continue };
+      if !d.lang.is_script()
+        || k.starts_with(REGISTRY)
+        || !entry_is_module(k)
+        || referenced.get(k).copied().unwrap_or(false)
+      {
+        continue;
+      }
+      let is_err = matches!(slot, SlotShape::Err { .. });
+      if is_err != d.unparsable {
+        out.violation(
+          "C01",
+          "nothing-reachable-is-absent",
+          format!("script-module-entry-kind:{:?}:unparsable={}", d.lang, d.unparsable),
+          format!(
+            "{} is served as a {:?} module (unparsable = {}) and imported without attributes, yet its entry is {:?}",
+            k, d.lang, d.unparsable, slot
+          ),
+          ctx(json!({"module": k})),
         );
         return out;
       }
